@@ -11,7 +11,7 @@ import PydjinniModel.Props.C17
                                   exception classes) no invocation ends in a traceback — composed from the C17 theorems
                                   `configure_fails_cleanly_partial` and `generate_fails_cleanly_partial`, not assumed
 * `never_traceback_counterexample`  the hole is real
-* `cli_eq_api`                    for a well-formed command line with known target names the CLI runs exactly the stages of the
+* `cli_eq_api`                    for a well-formed command line with known target names (and no failing debug dump of the AST) the CLI runs exactly the stages of the
                                   documented API sequence on the options dict its `-o` texts denote: same exit status / first
                                   exception, same effects
 * `cli_unlisted_target_generates_nothing`   where they differ: the CLI looks up all target names before generating any
@@ -135,7 +135,7 @@ theorem never_traceback_partial (inv : Invocation) (w : World) (hdom : cliDom in
     (exitOf (cliStages inv w)).traceback = false := by
   apply exitOf_no_traceback
   simp only [cliDom, Bool.and_eq_true] at hdom
-  obtain ⟨⟨hcfg, hfront⟩, hcmd⟩ := hdom
+  obtain ⟨⟨⟨hcfg, hfront⟩, hdump⟩, hcmd⟩ := hdom
   have hconf := ofOutcome_documented _ (configureOutcome_not_crash inv w hcfg)
   have hready := ofOutcome_documented _ (readyOutcome_not_crash inv w hcfg)
   have hopts : (match optionsStage inv with | .ok _ => StageResult.ok | .error _ => StageResult.raised (.app 141)).documented = true := by
@@ -158,7 +158,7 @@ theorem never_traceback_partial (inv : Invocation) (w : World) (hdom : cliDom in
   | generate argsOk clean targets =>
     simp only [hc, List.all_eq_true, Bool.and_eq_true] at hcmd
     simp only [hc, List.cons_append, List.nil_append, List.mem_cons, List.mem_append, List.mem_map, List.not_mem_nil, or_false] at hs
-    rcases hs with rfl | rfl | rfl | rfl | rfl | rfl | rfl | rfl | ⟨t, ht, rfl⟩ | rfl
+    rcases hs with rfl | rfl | rfl | rfl | rfl | rfl | rfl | rfl | rfl | ⟨t, ht, rfl⟩ | rfl
     · exact htop
     · rfl
     · exact hopts
@@ -166,6 +166,9 @@ theorem never_traceback_partial (inv : Invocation) (w : World) (hdom : cliDom in
     · simp only; split <;> rfl
     · exact hready
     · exact hfront
+    · simp only; split
+      · exact hdump
+      · rfl
     · simp only; split <;> rfl
     · exact generateStage_documented _ w clean t (hcmd t ht).1 (hcmd t ht).2
     · rfl
@@ -230,7 +233,8 @@ effect (argument handling, name lookup) the command line runs exactly the stages
 options dict — hence the same first exception (exit status = its documented code) and the same effects -/
 theorem cli_eq_api (inv : Invocation) (w : World) (clean : Bool) (targets : List String) (opts : Kids)
     (htop : inv.topOk = true) (hcmd : inv.command = .generate true clean targets) (hne : targets ≠ [])
-    (hknown : targets.all knownTarget = true) (hopts : foldOptions inv.options [] = .ok opts) :
+    (hknown : targets.all knownTarget = true) (hopts : foldOptions inv.options [] = .ok opts)
+    (hdump : (if inv.debug then w.astDump else .ok) = .ok) :
     exitOf (cliStages inv w) = exitOf (apiStages inv.config opts clean targets w)
     ∧ eventsOf (cliStages inv w) = eventsOf (apiStages inv.config opts clean targets w) := by
   have hne' : targets.isEmpty = false := by cases targets <;> simp_all
@@ -238,7 +242,7 @@ theorem cli_eq_api (inv : Invocation) (w : World) (clean : Bool) (targets : List
     simp [configureOutcome, optionsStage, hopts]
   have hstages : (cliStages inv w).filter (fun s => !s.silent) = (apiStages inv.config opts clean targets w).filter (fun s => !s.silent) := by
     unfold cliStages apiStages
-    simp only [hcmd, htop, hne', hknown, optionsStage, hopts, if_true, Bool.not_false, Bool.and_self, hconf, readyOutcome, configuredOf]
+    simp only [hcmd, htop, hne', hknown, optionsStage, hopts, if_true, Bool.not_false, Bool.and_self, hconf, readyOutcome, configuredOf, hdump]
     simp [List.filter_cons, Stage.silent]
   constructor
   · rw [← exitOf_filter, hstages, exitOf_filter]
@@ -263,7 +267,7 @@ theorem cli_unlisted_target_generates_nothing (inv : Invocation) (w : World) (cl
       · rfl
   unfold cliStages
   simp only [hcmd, hunknown]
-  exact key [_, _, _, _, _, _, _] _ (by intro s hs; simp at hs; rcases hs with rfl | rfl | rfl | rfl | rfl | rfl | rfl <;> rfl)
+  exact key [_, _, _, _, _, _, _, _] _ (by intro s hs; simp at hs; rcases hs with rfl | rfl | rfl | rfl | rfl | rfl | rfl | rfl <;> rfl)
 
 /-- hypotheses of `cli_eq_api` and of `never_traceback_partial` are satisfiable: `-o generate.cpp.out=o generate x.djinni cpp` -/
 example : ∃ inv w, wellFormed inv ∧ cliDom inv w = true ∧ exitOf (cliStages inv w) = ⟨0, false⟩
